@@ -465,7 +465,7 @@ class HolsteinTiny:
         return dict(mols=self.mols, jmat=self.jmat.tolist(), scheme=self.scheme, dims=self.dims)
 
 
-def gen_holstein(rng, nmol=None, scheme=None, max_dim=40):
+def gen_holstein(rng, nmol=None, scheme=None, max_dim=40, coincide=None):
     for _ in range(50):
         n = nmol or int(rng.integers(1, 3))
         mols = []
@@ -474,6 +474,14 @@ def gen_holstein(rng, nmol=None, scheme=None, max_dim=40):
             modes = [(float(np.round(rng.uniform(0.5, 1.5), 3)), float(np.round(rng.uniform(0.3, 1.2) * rng.choice([-1, 1]), 3)),
                       int(rng.integers(2, 4))) for _ in range(nm)]
             mols.append(dict(elocalex=float(np.round(rng.uniform(0.0, 1.0), 3)), modes=modes))
+        # coincidences: modes sharing frequency, size and |displacement| (same or mirrored direction) with an earlier mode
+        allm = [(i, k) for i, m in enumerate(mols) for k in range(len(m["modes"]))]
+        if len(allm) > 1 and rng.random() < (0.5 if coincide is None else coincide):
+            i0, k0 = allm[0]
+            w0, d0, nb0 = mols[i0]["modes"][k0]
+            for (i, k) in allm[1:]:
+                if rng.random() < (0.7 if coincide is None else 1.0):
+                    mols[i]["modes"][k] = (w0, float(d0 * rng.choice([-1, -1, 1])), nb0)
         j = np.zeros((n, n))
         for a in range(n):
             for b in range(a + 1, n):
